@@ -56,12 +56,26 @@ def run_selftest(prop=None, jobs=16, verbose=False):
             continue
         work.append((e["prop"], overlay))
         meta.append(e)
+    # generic behaviour-preserving rewrites of the whole tree (see autorefactor.py): the checkers must stay silent
+    from . import autorefactor
+
+    auto_names = sorted(autorefactor.TRANSFORMS)
+    auto_overlays = {}
+    for name in auto_names:
+        try:
+            auto_overlays[name] = autorefactor.overlay_for(name)
+        except Exception as e:  # pragma: no cover
+            print(f"SELFTEST-BROKEN auto-refactor {name}: {type(e).__name__}: {e}")
+            auto_overlays[name] = None
+    auto_work = [(p, auto_overlays[name]) for name in auto_names if auto_overlays[name] is not None for p in props]
+    auto_meta = [(name, p) for name in auto_names if auto_overlays[name] is not None for p in props]
     base = {}
     with ProcessPoolExecutor(max_workers=jobs) as ex:
         bres = list(ex.map(_run_one, [(p, None) for p in props]))
         for p, r in zip(props, bres):
             base[p] = {k for (_, k, _) in r[1]} if r[0] == "ok" else set()
         results = list(ex.map(_run_one, work))
+        auto_results = list(ex.map(_run_one, auto_work))
     fails = 0
     n_mut = n_ref = det = silent = shape = 0
     for e, r in zip(meta, results):
@@ -104,13 +118,28 @@ def run_selftest(prop=None, jobs=16, verbose=False):
             else:
                 fails += 1
                 print(f"SELFTEST-BROKEN property={e['prop']} refactor={e['id']} {status}: {data[:120]}")
+    n_auto = auto_silent = 0
+    for (name, p), (status, data) in zip(auto_meta, auto_results):
+        n_auto += 1
+        if status == "ok":
+            new = [(rule, key, msg) for (rule, key, msg) in data if key not in base[p]]
+            if new:
+                fails += 1
+                print(f"SELFTEST-FALSE-ALARM property={p} auto-refactor={name} raised {new[0][0]}: {new[0][2][:140]}")
+            else:
+                auto_silent += 1
+        else:
+            # an analysis error on an equivalent program is not a false VIOLATION, but the check would be broken (exit 2)
+            fails += 1
+            print(f"SELFTEST-DECLINED property={p} auto-refactor={name} {status}: {data[:140]}")
     for e, why in stale:
         if verbose:
             print(f"  stale     {e['id']}: {why}")
     applicable = len(meta)
     print(
         f"SELFTEST {'all' if prop is None else prop}: mutants detected {det}/{n_mut}, refactors silent {silent}/{n_ref} "
-        f"(declined with analysis-error {shape}), stale {len(stale)}/{len(entries)}, wall {time.time() - t0:.1f}s"
+        f"(declined with analysis-error {shape}), whole-tree rewrites ({', '.join(auto_names)}) silent {auto_silent}/{n_auto}, "
+        f"stale {len(stale)}/{len(entries)}, wall {time.time() - t0:.1f}s"
     )
     if applicable < 0.5 * len(entries):
         # the tree has drifted away from the corpus: do not pretend the self-test ran
